@@ -1,15 +1,28 @@
 """C42 — compilation is deterministic.
 
-spec/Determinism.tla (+ MC_Determinism.tla): a cythonize build as K worker processes taking jobs
-from an ordered list, reading only sources, writing outputs in two steps; TLC checks over ALL
+spec/Determinism.tla (+ MC_Determinism.tla): a cythonize build as worker PROCESSES taking jobs from an
+ordered list, reading only sources, resolving derived names through the process-wide memo of their
+process (the compiler's module-level caches) and writing outputs in two steps.  TLC checks over ALL
 interleavings that the final outputs are the fresh ones whatever the schedule / order / seed
-(ScheduleIndependent, NoSharedOutput) and publishes the environment classes (job order, number of
-workers, hash seed).  B1: every published class is executed with the real cythonize() from the
-snapshot (module order, nthreads, PYTHONHASHSEED) on a corpus of modules (files from tests/run
-plus generated modules that stress iteration-order hazards: many names and constants, cdef
-classes, closures, fused functions, an include file compiled with profile=True); every generated
-.c file is compared byte-wise with the baseline class.  Each module is additionally compiled
-alone in separate processes and directories-with-history (a second compile in a used directory).
+(ScheduleIndependent, NoSharedOutput), that a job's names do not depend on what its process compiled
+before (MemoHistoryIndependent, MemoSound, MemoPrivate), and publishes every environment class with
+its process histories (which jobs each process ran, in order) plus, for the hazard models of a memo
+keyed too coarsely (declaration + base name of the module / declaration alone), the outputs that
+history would make stale.
+
+B1: the published classes are executed on the real compiler: one real process per model process,
+which compiles the corpus modules of its jobs with cythonize() one after the other in the published
+order (PYTHONHASHSEED of the class); every generated .c must be byte-identical to the FRESH output =
+the module compiled alone in a new process.  The quick tier executes a seeded selection that covers
+every hazard signature (key mode x stale module) TLC computed.  The corpus: files from tests/run,
+generated modules that stress iteration-order hazards (many names and constants, cdef classes,
+closures, fused functions, an include file compiled with profile=True) and module families built to
+collide in process-wide memos: the same base name in different packages with identical declarations
+(extern cpdef enums, extern and plain structs, unions, ctuples, fused types, memoryview types, cdef
+classes, closures/generators/lambdas/comprehensions, cimports from one shared .pxd), the same
+names with different contents, the same contents under another base name, and top level vs package.
+In addition the real parallel path (cythonize(all, nthreads=N), ProcessPoolExecutor) is run and
+compared with the fresh outputs, and modules are compiled repeatedly in a directory with history.
 """
 import concurrent.futures
 import hashlib
@@ -42,9 +55,247 @@ GEN = {
 }
 EXTRA = {"g_inc.pxi": "INC = 1\ndef from_include(x):\n    return x\n", "g_dep.pxd": "cdef enum:\n    K = 3\n"}
 
-_CHILD = r'''
+# ---- module families designed to collide in process-wide memos of the compiler -----------------------------------------
+# shared declarations (model: the global declaration G, declared in module b's .pxd and cimported by everybody)
+COMMON_PXD = """cdef extern from *:
+    \"\"\"
+    enum CommonMode { CM_A, CM_B };
+    \"\"\"
+    cpdef enum CommonMode:
+        CM_A
+        CM_B
+cdef struct CommonPoint:
+    int x
+    double y
+ctypedef (int, long) common_pair
+cdef class Shared:
+    cdef public int v
+    cpdef int get(self)
+"""
+COMMON_PYX = """cdef class Shared:
+    cpdef int get(self):
+        return self.v
+def common_point(int x):
+    cdef CommonPoint p = CommonPoint(x, 0.5)
+    return p
+def common_mode():
+    return CM_B
+cdef common_pair mkpair(int a):
+    return (a, a)
+def pair(a):
+    return mkpair(a)
+"""
+# identical text in several packages under the same base name (model: the scoped declaration T of pa and qa)
+SHAPE = """cimport cython
+from g_common cimport Shared, CommonMode, CommonPoint, common_pair, CM_A
+
+cdef extern from *:
+    \"\"\"
+    enum Mode { MODE_FAST, MODE_SMALL };
+    typedef struct { int x; double y; } ext_point;
+    \"\"\"
+    cpdef enum Mode:
+        MODE_FAST
+        MODE_SMALL
+    ctypedef struct ext_point:
+        int x
+        double y
+
+cpdef enum Colour:
+    RED = 1
+    GREEN = 2
+
+cdef struct Point:
+    int x
+    double y
+
+cdef union Either:
+    int i
+    float f
+
+ctypedef fused number:
+    int
+    double
+    Point
+
+ctypedef (int, double) pair_t
+
+cdef class Node:
+    cdef public int value
+    cdef Point p
+    cdef public Shared s
+    cpdef int get(self):
+        return self.value
+    def __add__(self, other):
+        return self
+
+def default_mode():
+    return MODE_SMALL
+
+def mode_arg(Mode m):
+    return m
+
+def colour():
+    return Colour.GREEN
+
+def point(int x):
+    cdef Point p = Point(x, 2.0)
+    return p
+
+def point_arg(Point p):
+    return p.x
+
+def ext(int x):
+    cdef ext_point p
+    p.x = x
+    p.y = 1.5
+    return p
+
+cdef pair_t mk(int a):
+    return (a, a * 0.5)
+
+def ctuple(int a):
+    return mk(a)
+
+def from_ctuple((int, double) t, common_pair c):
+    return t[0] + c[1]
+
+def fused_first(number a, number b):
+    return a
+
+def fused_cy(cython.floating a, cython.integral b):
+    return a + b
+
+def mv(double[:, ::1] a, int[::1] b):
+    return a[0, 0] + b[0]
+
+def mv_struct(Point[:] pts, CommonPoint[:] cps):
+    return pts[0].x + cps[0].x
+
+def closure(x):
+    def inner(y):
+        return x + y
+    return inner
+
+def gen(n):
+    for i in range(n):
+        yield (lambda q: q + i)
+
+def comp(n):
+    return [i for i in range(n)], {i: i for i in range(n)}, sum(i for i in range(n))
+
+def shared(Shared s, CommonMode m):
+    cdef CommonPoint cp = CommonPoint(1, 2.0)
+    return s.v + <int>m + <int>CM_A, cp
+
+async def co(x):
+    return await x
+
+cdef int cfunc(int a, Either* e) noexcept nogil:
+    return a + e.i
+
+def call_cfunc(int a):
+    cdef Either e
+    e.i = a
+    return cfunc(a, &e)
+"""
+
+
+def variant(k, ctype):
+    """the same declaration NAMES in every instance, contents depend on (k, ctype)"""
+    return """from g_common cimport Shared, CommonMode
+cdef extern from *:
+    \"\"\"
+    enum Level { LEVEL_A%(k)d, LEVEL_B%(k)d };
+    typedef struct { int f%(k)d; } ext_rec;
+    \"\"\"
+    cpdef enum Level:
+        LEVEL_A%(k)d
+        LEVEL_B%(k)d
+    ctypedef struct ext_rec:
+        int f%(k)d
+
+cpdef enum Kind:
+    K%(k)d = %(k)d
+
+cdef struct Rec:
+    int f%(k)d
+    %(ctype)s g
+
+ctypedef fused scalar:
+    %(ctype)s
+    short
+
+ctypedef (%(ctype)s, int) item_t
+
+cdef class Box:
+    cdef public %(ctype)s v%(k)d
+    cpdef %(ctype)s get(self):
+        return self.v%(k)d
+
+def level():
+    return LEVEL_B%(k)d
+
+def level_arg(Level v, CommonMode m):
+    return v, m
+
+def kind():
+    return Kind.K%(k)d
+
+def rec(int x):
+    cdef Rec r
+    r.f%(k)d = x
+    r.g = x
+    return r
+
+def rec_arg(Rec r):
+    return r.f%(k)d
+
+def ext(int x):
+    cdef ext_rec r
+    r.f%(k)d = x
+    return r
+
+cdef item_t mk(int a):
+    return (<%(ctype)s>a, a)
+
+def item(int a):
+    return mk(a)
+
+def item_arg(item_t t):
+    return t[1]
+
+def fused_id(scalar a):
+    return a
+
+def closure(x):
+    def inner(y):
+        return x + y + %(k)d
+    return inner
+
+def gen(n):
+    for i in range(n):
+        yield i + %(k)d
+""" % {"k": k, "ctype": ctype}
+
+
+FAMILIES = {
+    "g_common.pxd": COMMON_PXD, "g_common.pyx": COMMON_PYX,
+    "pkg_p/__init__.py": "", "pkg_q/__init__.py": "", "pkg_r/__init__.py": "",
+    "pkg_p/shape.pyx": SHAPE, "pkg_q/shape.pyx": SHAPE,                          # same base name, same text, two packages
+    "pkg_p/variant.pyx": variant(1, "long"), "pkg_q/variant.pyx": variant(2, "double"),   # same names, other contents
+    "pkg_r/other.pyx": variant(1, "long"),                                        # text of pkg_p/variant under another name
+    "other.pyx": variant(2, "double"),                                            # top level vs package, same base name
+}
+# the model's modules are groups of corpus modules compiled consecutively by the process that runs the job
+GROUP_HEAD = {"pa": ["pkg_p/shape.pyx", "pkg_p/variant.pyx", "g_names.pyx", "g_classes.pyx"],
+              "qa": ["pkg_q/shape.pyx", "pkg_q/variant.pyx", "g_closures.py", "g_fused.pyx"],
+              "ro": ["other.pyx", "pkg_r/other.pyx", "g_profile.pyx"],
+              "b": ["g_common.pyx"]}
+
+_CHILD = r"""
 import json, sys, os, hashlib
-workdir, order_json, nthreads, outfile = sys.argv[1], sys.argv[2], int(sys.argv[3]), sys.argv[4]
+workdir, mode, order_json, nthreads, outfile = sys.argv[1], sys.argv[2], sys.argv[3], int(sys.argv[4]), sys.argv[5]
 os.chdir(workdir)
 import Cython
 assert Cython.__file__.startswith(os.environ["PYTHONPATH"].split(os.pathsep)[0]), Cython.__file__
@@ -59,7 +310,14 @@ buf = io.StringIO(); old = sys.stdout; sys.stdout = buf
 err = None
 try:
     try:
-        cythonize(files, nthreads=nthreads, language_level=3, quiet=True, force=True)
+        if mode == "pool":       # the real parallel path: one call, ProcessPoolExecutor with nthreads workers
+            cythonize(files, nthreads=nthreads, language_level=3, quiet=True, force=True)
+        else:                    # "seq": THIS process compiles the files one after the other in the given order
+            for f in files:
+                try:
+                    cythonize([f], nthreads=0, language_level=3, quiet=True, force=True)
+                except BaseException as e:
+                    err = "%s: %s: %s" % (f, type(e).__name__, str(e)[:300])
     finally:
         sys.stdout = old
 except BaseException as e:
@@ -69,14 +327,68 @@ for f in files:
     c = os.path.splitext(f)[0] + ".c"
     res[f] = hashlib.sha256(open(c, "rb").read()).hexdigest() if os.path.exists(c) else None
 json.dump({"sha": res, "error": err}, open(outfile, "w"))
-'''
+"""
+KEYMODES = ("base", "decl")      # the hazard models of the spec
 
 
 def make_tree(d, files):
     os.makedirs(d, exist_ok=True)
     for name, text in files.items():
-        with open(os.path.join(d, name), "w") as f:
+        p = os.path.join(d, name)
+        os.makedirs(os.path.dirname(p), exist_ok=True)
+        with open(p, "w") as f:
             f.write(text)
+
+
+def first_difference(a, b):
+    """kind of the first differing line of two generated files (for the replay record)"""
+    try:
+        la = open(a, encoding="utf8", errors="replace").read().splitlines()
+        lb = open(b, encoding="utf8", errors="replace").read().splitlines()
+    except OSError as e:
+        return {"error": str(e)}
+    for i, (x, y) in enumerate(zip(la, lb)):
+        if x != y:
+            return {"line": i + 1, "fresh": x[:240], "got": y[:240]}
+    return {"line": min(len(la), len(lb)) + 1, "fresh_lines": len(la), "got_lines": len(lb)}
+
+
+def canonical_classes(printed):
+    """distinct environment classes (seed, nworkers, set of process histories) with their hazard signatures"""
+    seen = {}
+    for r in printed:
+        procs = tuple(sorted(tuple(h) for h in r["hist"] if h))
+        key = (r["seed"], r["nworkers"], procs)
+        if key not in seen:
+            seen[key] = {"order": r["order"], "seed": r["seed"], "nworkers": r["nworkers"], "procs": [list(h) for h in procs],
+                         "stale": {k: sorted(v) for k, v in r["stale"].items()}}
+    return [seen[k] for k in sorted(seen)]
+
+
+def signatures(cls):
+    return {(km, m) for km in KEYMODES for m in cls["stale"].get(km, [])}
+
+
+def select(classes, n, rng):
+    """n classes: first a greedy cover of all hazard signatures (random tie-break), then random ones"""
+    pool = list(classes)
+    rng.shuffle(pool)
+    want = set().union(*[signatures(c) for c in pool]) if pool else set()
+    chosen = []
+    while want and pool and len(chosen) < n:
+        best = max(pool, key=lambda c: len(signatures(c) & want))
+        if not signatures(best) & want:
+            break
+        chosen.append(best)
+        pool.remove(best)
+        want -= signatures(best)
+    # one class with several processes among the covering ones is not guaranteed: the random rest supplies them
+    multi = [c for c in pool if len(c["procs"]) > 1]
+    single = [c for c in pool if len(c["procs"]) == 1]
+    while len(chosen) < n and (multi or single):
+        src = multi if (multi and (len(chosen) % 2 == 0 or not single)) else single
+        chosen.append(src.pop())
+    return chosen, want
 
 
 def run(tier, seed):
@@ -84,108 +396,194 @@ def run(tier, seed):
     rng = random.Random(seed)
     rep = core.Reporter(PROP)
     cov = {"tlc": []}
-    t = core.tlc_or_die("MC_Determinism", cfg="MC_Determinism", coverage=True, timeout=1200)
-    for act in ("Take", "ReadOne", "Truncate", "Write"):
-        if t.coverage.get(act, (0, 0))[1] == 0:
-            core.die("vacuous model: %s never taken" % act)
-    cov["tlc"].append(dict(t.summary(), config="3 modules (a depends on b), orders x seeds x 2 workers, all interleavings"))
-    t1 = core.tlc_or_die("MC_Determinism", cfg="MC_Determinism_w1", timeout=1200)
-    cov["tlc"].append(dict(t1.summary(), config="same, 1 worker"))
-    classes = t.printed + t1.printed
-    if len(classes) < 6:
-        core.die("only %d environment classes published" % len(classes))
+    cfg = "MC_Determinism" if tier == "quick" else "MC_Determinism_all"
+    core.scratch()
+    tlc_pool = concurrent.futures.ThreadPoolExecutor(max_workers=1)
+    tlc_future = tlc_pool.submit(core.tlc, "MC_Determinism", cfg=cfg, coverage=True, timeout=2400)   # runs while phase 0 compiles
     # corpus
     files = dict(GEN)
     files.update(EXTRA)
+    files.update(FAMILIES)
     for f in CORPUS_FILES:
         p = os.path.join(core.REPO, "tests", "run", f)
         if os.path.exists(p):
             files["t_" + f] = open(p, encoding="utf8").read()
-    mods = sorted(f for f in files if f.endswith((".pyx", ".py")))
+    mods = sorted(f for f in files if f.endswith((".pyx", ".py")) and not f.endswith("__init__.py"))
     wd = core.subdir("c42")
 
-    # phase 0: every module alone, in its own process and directory; modules that do not compile
-    # standalone (some tests/run files need extra options) leave the corpus
+    # phase 0: every module alone, in its own NEW process and directory = the fresh output F(inputs) of the spec (empty
+    # memo); modules that do not compile standalone (some tests/run files need extra options) leave the corpus
+    def alone_dir(m):
+        return os.path.join(wd, "alone_" + m.replace(".", "_").replace("/", "__"))
+
     def alone(m):
-        d = os.path.join(wd, "alone_" + m.replace(".", "_"))
+        d = alone_dir(m)
         make_tree(d, files)
         out = os.path.join(d, "out.json")
-        core.run_child(_CHILD, [d, json.dumps([m]), "1", out], with_snapshot=True, timeout=900, env={"PYTHONHASHSEED": "0"})
+        core.run_child(_CHILD, [d, "seq", json.dumps([m]), "0", out], with_snapshot=True, timeout=1500, env={"PYTHONHASHSEED": "0"})
         return m, (json.load(open(out))["sha"].get(m) if os.path.exists(out) else None)
     with concurrent.futures.ThreadPoolExecutor(max_workers=core.NCPU) as ex:
-        alone_sha = dict(ex.map(alone, mods))
-    dropped = [m for m in mods if not alone_sha[m]]
-    mods = [m for m in mods if alone_sha[m]]
+        fresh = dict(ex.map(alone, mods))
+    dropped = [m for m in mods if not fresh[m]]
+    mods = [m for m in mods if fresh[m]]
     for m in dropped:
         files.pop(m)
-    # the model's modules a, b, c are groups of corpus modules; `a` depends on `b`: g_profile (cimports g_dep) is in a
-    groups = {"a": [m for m in mods if m.startswith("g_")], "b": [m for m in mods if m.startswith("t_")][:5],
-              "c": [m for m in mods if m.startswith("t_")][5:]}
+    missing = [m for m in FAMILIES if m.endswith(".pyx") and m in dropped]
+    if missing:
+        rep.disagree({"kind": "family-module-does-not-compile"}, "error", {"modules": missing})
+
+    t = tlc_future.result()
+    tlc_pool.shutdown()
+    if not t.ok:
+        sys.stderr.write(t.out[-6000:])
+        core.die("TLC failed (%s): %s" % (t.violation or t.rc, t.cmd))
+    for act in ("Take", "ReadOne", "Memo", "Truncate", "Write", "Observe"):
+        if t.coverage.get(act, (0, 0))[1] == 0:
+            core.die("vacuous model: %s never taken" % act)
+    cov["tlc"].append(dict(t.summary(), config="4 modules (pa, qa: one base name in two packages; ro: same declarations elsewhere; all depend on b), "
+                                               "%s orders x 4 seeds x {1, 2} worker processes, all interleavings; key modes exact + hazard models base, decl"
+                                               % ("6" if tier == "quick" else "all 24")))
+    classes = canonical_classes(t.printed)
+    if len(classes) < 6:
+        core.die("only %d environment classes published" % len(classes))
+    if any(c["stale"].get("exact") for c in classes):
+        core.die("spec: stale outputs under the exact key mode")
+    all_sigs = set().union(*[signatures(c) for c in classes])
+    need = {(km, m) for km in KEYMODES for m in ("pa", "qa")} | {("decl", "ro")}
+    if not need <= all_sigs:
+        core.die("vacuous hazard models: signatures %s never published" % sorted(need - all_sigs))
+    if not any(len(c["procs"]) > 1 and not signatures(c) & {("base", "pa"), ("base", "qa")} for c in classes):
+        core.die("spec publishes no multi-process class that separates pa and qa")
+
+    # the model's modules are groups of corpus modules; pa, qa, ro depend on b: g_common (the .pxd they cimport) is in b
+    tfiles = [m for m in mods if m.startswith("t_")]
+    groups = {g: [m for m in GROUP_HEAD[g] if m in mods] for g in GROUP_HEAD}
+    groups["b"] += tfiles[:(len(tfiles) + 1) // 2]
+    groups["ro"] += tfiles[(len(tfiles) + 1) // 2:]
+    group_of = {m: g for g in groups for m in groups[g]}
+    if sorted(group_of) != sorted(mods):
+        core.die("corpus modules without a group: %s" % sorted(set(mods) - set(group_of)))
     seeds = {0: "0", 1: "1", 2: str(1000 + seed), 3: "random"}
 
     def run_class(i_cls):
         i, cls = i_cls
         d = os.path.join(wd, "cls%d" % i)
         make_tree(d, files)
-        order = [m for g in cls["order"] for m in groups[g]]
+
+        def proc(j):      # one real process per model process: its jobs' modules in the published order
+            order = [m for g in cls["procs"][j] for m in groups[g]]
+            out = os.path.join(d, "out%d.json" % j)
+            ch = core.run_child(_CHILD, [d, "seq", json.dumps(order), "0", out], with_snapshot=True, timeout=2400,
+                                env={"PYTHONHASHSEED": seeds[cls["seed"]]})
+            if not os.path.exists(out):
+                return {"sha": {}, "error": "child failed rc=%s %s" % (ch.rc, ch.err[-800:])}
+            return json.load(open(out))
+        with concurrent.futures.ThreadPoolExecutor(max_workers=max(1, len(cls["procs"]))) as ex2:
+            parts = list(ex2.map(proc, range(len(cls["procs"]))))
+        r = {"sha": {}, "error": "; ".join(p["error"] for p in parts if p.get("error")) or None, "dir": d}
+        for p in parts:
+            r["sha"].update(p["sha"])
+        return cls, r
+
+    def run_pool(i_cls):
+        i, (nthreads, sd, order) = i_cls
+        d = os.path.join(wd, "pool%d" % i)
+        make_tree(d, files)
         out = os.path.join(d, "out.json")
-        ch = core.run_child(_CHILD, [d, json.dumps(order), str(cls["nworkers"]), out], with_snapshot=True, timeout=1500,
-                            env={"PYTHONHASHSEED": seeds[cls["seed"]]})
-        if not os.path.exists(out):
-            return cls, {"sha": {}, "error": "child failed rc=%s %s" % (ch.rc, ch.err[-800:])}
-        return cls, json.load(open(out))
-    todo = list(enumerate(classes))
+        ch = core.run_child(_CHILD, [d, "pool", json.dumps([m for g in order for m in groups[g]]), str(nthreads), out], with_snapshot=True,
+                            timeout=2400, env={"PYTHONHASHSEED": seeds[sd]})
+        r = json.load(open(out)) if os.path.exists(out) else {"sha": {}, "error": "child failed rc=%s %s" % (ch.rc, ch.err[-800:])}
+        r["dir"] = d
+        return {"nworkers": nthreads, "seed": sd, "order": order, "mode": "cythonize(nthreads)"}, r
+
     if tier == "quick":
-        base = todo[:1]
-        rest = todo[1:]
-        todo = base + core.sample(rest, 6, rng)
+        todo, uncovered = select(classes, 6, rng)
+        pools = [(2, 3, list(GROUP_HEAD))]
+    else:
+        single = [c for c in classes if len(c["procs"]) == 1 and c["nworkers"] == 1]
+        single = list({tuple(c["procs"][0]): c for c in single}.values())         # every job order once in ONE process
+        cover, uncovered = select(classes, 8, rng)
+        multi = [c for c in classes if len(c["procs"]) > 1 and c not in cover]
+        todo = cover + [c for c in single if c not in cover] + core.sample(multi, 16, rng)
+        pools = [(2, 3, list(GROUP_HEAD)), (1, 1, list(GROUP_HEAD)[::-1]), (2, 0, ["b", "ro", "qa", "pa"])]
+    if uncovered:
+        core.die("selection does not cover the hazard signatures %s" % sorted(uncovered))
     with concurrent.futures.ThreadPoolExecutor(max_workers=8) as ex:
-        results = list(ex.map(run_class, todo))
-    base_cls, base = results[0]
-    compiled = [m for m in mods if base["sha"].get(m)]
-    failed_base = [m for m in mods if not base["sha"].get(m)]
-    if len(compiled) < 8:
-        rep.disagree({"kind": "baseline-compile-failed"}, "error", {"base": base})
+        fut_pool = [ex.submit(run_pool, x) for x in enumerate(pools)]
+        results = list(ex.map(run_class, enumerate(todo)))
+        pool_results = [f.result() for f in fut_pool]
+
     n_cmp = 0
-    for m in compiled:      # compiled alone (own process, own directory) vs inside the baseline batch
-        n_cmp += 1
-        if alone_sha[m] != base["sha"][m]:
-            rep.disagree({"kind": "alone-differs-from-batch", "module": m}, "bytes-differ", {"module": m, "baseline_class": base_cls})
-    for cls, r in results[1:]:
-        for m in compiled:
+    n_hist = 0
+    exec_sigs = set()
+    for cls, r in results:
+        exec_sigs |= signatures(cls)
+        for h in cls["procs"]:
+            n_hist += 1
+            for gi, g in enumerate(h):
+                for mi, m in enumerate(groups[g]):
+                    n_cmp += 1
+                    got = r["sha"].get(m)
+                    if got != fresh[m]:
+                        # descriptor from the spec side: the module, its model module and what the process ran before it
+                        desc = {"kind": "depends-on-process-history", "module": m, "group": g, "after_groups": sorted(set(h[:gi])),
+                                "first_in_process": gi == 0 and mi == 0}
+                        detail = {"class": cls, "process": h, "compiled_before_in_process": [x for gg in h[:gi] for x in groups[gg]] + groups[g][:mi],
+                                  "seed": seeds[cls["seed"]], "sha": got, "fresh_sha": fresh[m], "error": r.get("error")}
+                        if got:
+                            cfile = os.path.splitext(m)[0] + ".c"
+                            detail["first_difference"] = first_difference(os.path.join(alone_dir(m), cfile), os.path.join(r["dir"], cfile))
+                        rep.disagree(desc, "bytes-differ" if got else "compile-failed", detail)
+    for cls, r in pool_results:     # the real ProcessPoolExecutor path (job -> process assignment not controlled)
+        for m in mods:
             n_cmp += 1
-            if r["sha"].get(m) != base["sha"][m]:
-                rep.disagree({"kind": "differs-from-baseline", "module": m, "varied": sorted(k for k in ("order", "seed", "nworkers") if cls[k] != base_cls[k])},
-                             "bytes-differ" if r["sha"].get(m) else "compile-failed", {"class": cls, "baseline_class": base_cls, "module": m, "error": r.get("error")})
-    # process / directory history: compile the include+profile module and one corpus module alone, twice in the same directory
+            got = r["sha"].get(m)
+            if got != fresh[m]:
+                detail = {"class": cls, "sha": got, "fresh_sha": fresh[m], "error": r.get("error")}
+                if got:
+                    cfile = os.path.splitext(m)[0] + ".c"
+                    detail["first_difference"] = first_difference(os.path.join(alone_dir(m), cfile), os.path.join(r["dir"], cfile))
+                rep.disagree({"kind": "batch-differs-from-fresh", "module": m, "group": group_of[m], "nthreads": cls["nworkers"]},
+                             "bytes-differ" if got else "compile-failed", detail)
+    # process / directory history: compile the include+profile module and one corpus module alone, three times in the same directory
     d2 = os.path.join(wd, "hist")
     make_tree(d2, files)
     singles = ["g_profile.pyx", "g_names.pyx"]
     hist = []
     for k in range(3):
         out = os.path.join(d2, "o%d.json" % k)
-        core.run_child(_CHILD, [d2, json.dumps(singles), "1", out], with_snapshot=True, timeout=600, env={"PYTHONHASHSEED": "0"})
+        core.run_child(_CHILD, [d2, "pool", json.dumps(singles), "1", out], with_snapshot=True, timeout=900, env={"PYTHONHASHSEED": "0"})
         hist.append(json.load(open(out)) if os.path.exists(out) else {"sha": {}})
-    for k in range(1, 3):
+    for k in range(3):
         for m in singles:
             n_cmp += 1
-            if hist[k]["sha"].get(m) != base["sha"].get(m):
+            if hist[k]["sha"].get(m) != fresh.get(m):
                 rep.disagree({"kind": "position-tie-order" if m == "g_profile.pyx" else "differs-between-processes", "module": m},
-                             "bytes-differ", {"run": k, "module": m, "sha": hist[k]["sha"].get(m), "baseline": base["sha"].get(m)})
+                             "bytes-differ", {"run": k, "module": m, "sha": hist[k]["sha"].get(m), "fresh_sha": fresh.get(m)})
+    n_later = sum(len(groups[g]) for c, _ in results for h in c["procs"] for g in h) - sum(1 for c, _ in results for h in c["procs"])
     cov.update({
-        "states": t.generated + t1.generated, "distinct_states": t.distinct + t1.distinct, "transitions": t.generated + t1.generated,
-        "traces_validated_against_impl": len(results) + 3, "evaluations": n_cmp, "distinct_nontrivial": max(0, len(results) - 1) * len(compiled),
-        "environment_classes_published": len(classes), "classes_executed": len(results), "modules": compiled,
-        "modules_not_compilable_standalone": dropped + failed_base,
-        "rule": "environment classes = job order (3 group permutations) x PYTHONHASHSEED {0, 1, seeded, random} x nthreads {1, 2}; quick: "
-                "baseline + 9 seeded classes, thorough: all; every module of the corpus compared byte-wise with the baseline class; "
-                "non-trivial = module x non-baseline class",
+        "states": t.generated, "distinct_states": t.distinct, "transitions": t.generated,
+        "traces_validated_against_impl": len(results) + len(pool_results) + 3, "evaluations": n_cmp,
+        "distinct_nontrivial": n_later,
+        "environment_classes_published": len(classes), "classes_executed": len(results), "process_histories_executed": n_hist,
+        "batch_runs_executed": len(pool_results),
+        "hazard_signatures_published": sorted("%s:%s" % s for s in all_sigs), "hazard_signatures_executed": sorted("%s:%s" % s for s in exec_sigs),
+        "action_coverage": {a: list(t.coverage.get(a, (0, 0))) for a in ("Take", "ReadOne", "Memo", "Truncate", "Write", "Observe")},
+        "modules": mods, "groups": groups,
+        "modules_not_compilable_standalone": dropped,
+        "rule": "environment classes = final states of the model: job order x PYTHONHASHSEED {0, 1, seeded, random} x {1, 2} worker processes x "
+                "process histories (which jobs each process ran, in order); a class is executed as one real process per model process that "
+                "compiles the modules of its jobs consecutively; every output is compared byte-wise with the fresh output (module alone in a "
+                "new process); quick: 6 seeded classes that cover every hazard signature (key mode x stale module) of the too-coarse-memo "
+                "models + 1 cythonize(nthreads=2) batch, thorough: every job order in one process, the cover, 16 two-process classes, 3 batches; "
+                "non-trivial = module compiled by a process that compiled something else before",
         "samples": [{"class": c, "n_outputs": len([1 for v in r["sha"].values() if v])} for c, r in results[:3]],
     })
     rc = rep.finish()
     cov["known_findings"] = rep.kf_summary()
     core.write_evidence(PROP, tier, seed, "model_checking", cov, time.time() - t0,
                         assumptions=["the self-compiled compiler form is not exercised (pure-Python compiler only)",
-                                     "determinism is observed on a corpus; the scheduling model covers job/worker interleavings only"],
+                                     "determinism is observed on a corpus; the scheduling model covers job/worker interleavings and one "
+                                     "abstract per-process memo; the real caches are exercised only through the corpus families"],
                         violations=rep.n_violations())
     return rc
